@@ -1086,9 +1086,9 @@ def c44_leaf(bits):
     if k < 3:
         return c16_number(bits)
     if k == 3:
-        return pick(bits, [["real_double", float("inf")], ["real_double", float("-inf")], ["real_double", float("nan")],
-                           ["complex_double", float("nan"), 1.0], ["complex_double", 1.0, float("-inf")], ["real_double", -0.0],
-                           ["integer", 10 ** 60], ["rational", -(10 ** 30), 7], ["complex", ["rational", -1, 2], ["rational", -3, 4]],
+        # (inf / nan doubles only in the deterministic table: floor/ceiling/truncate of a non-finite double kill the
+        # process inside GMP -- an evaluation defect outside the printers)
+        return pick(bits, [["real_double", -0.0], ["integer", 10 ** 60], ["rational", -(10 ** 30), 7], ["complex", ["rational", -1, 2], ["rational", -3, 4]],
                            ["complex", ["integer", 0], ["integer", 5]], ["complex", ["integer", 2], ["integer", -7]],
                            ["complex", ["integer", 0], ["rational", 2, 3]]])
     if k == 4:
@@ -1440,3 +1440,17 @@ def in_sbml_fragment(d):
         if kind == "Infty" and p == ["Integer", "0"]:
             return False, "zoo"
     return True, None
+
+
+def has_nested_add_unit(d):
+    """an Add holding another Add as a term with coefficient 1 (non-canonical: handle_minus of the trigonometric /
+    hyperbolic constructors negates -1*(a+b) inside a sum without merging it)"""
+    if isinstance(d, list) and d:
+        if d[0] == "Add":
+            for t, c in d[2]:
+                if isinstance(t, list) and t[:1] == ["Add"] and c == ["Integer", "1"]:
+                    return True
+        if d[0] in ("Symbol", "Constant", "Integer", "Rational", "RealDouble", "ComplexDouble"):
+            return False
+        return any(has_nested_add_unit(x) for x in kids(d))
+    return False
